@@ -77,7 +77,9 @@ def run_target(case):
         except Exception:  # noqa  (the preview may be refused: nothing to reuse then)
             previewed = None
     for i, (mv, sp) in enumerate(fin["moves"]):
-        lab.send_quote(i, min(max(lab.mid[i] * mv, 1e-3), 1e7), sp, same_time=bool(fin.get("same_time")) and i > 0)
+        # (with a preview, every other same-time case stamps ALL the last quotes with the time of the last event seen by the preview)
+        same_all = bool(fin.get("same_time")) and previewed is not None and fin["dt"] % 2 == 0
+        lab.send_quote(i, min(max(lab.mid[i] * mv, 1e-3), 1e7), sp, same_time=bool(fin.get("same_time")) and (i > 0 or same_all))
         if fin.get("peek") and i == 0:
             br.net_liquidation_value(raise_if_broke=False)
     if fin.get("same_time"):
